@@ -88,12 +88,30 @@ def run(ctx):
                           'depth limits and max_depth no longer measure distance from the initial states',
                       span=e.span)
         sp = Spawn(F, 'BFS')
-        ok = False
-        for cl in F.closures_under(sp.b):
-            for c in cl.calls_to('NonZero::new'):
-                v = cl.val(c.args[0])
-                if v.kind == 'const' and v.key == 1:
-                    ok = True
+        s_ = F.norm(sp.b)
+        from taint import origins
+
+        def is_one(op, depth=0):
+            """the operand is the NonZeroUsize 1, however it is spelled"""
+            if op.get('k') == 'const':
+                return op.get('dbg', '').endswith('::MIN') and 'NonZero' in op.get('ty', '') or \
+                    (op.get('val') == 1 and depth > 0)
+            org = origins(s_, op)
+            if not org or depth > 4:
+                return False
+            for o in org:
+                if isinstance(o, (str, tuple)):
+                    return False
+                if o.is_('Option::unwrap', 'Option::expect', 'Option::unwrap_unchecked', 'NonZero::new',
+                         'NonZero::new_unchecked'):
+                    if not is_one(o.args[0], depth + 1):
+                        return False
+                else:
+                    return False
+            return True
+        jobs = [(i, st) for (i, si, st) in s_.assigns(lambda st: st['rv']['k'] == 'agg' and st['rv'].get('agg') == 'tuple'
+                                                      and len(st['rv']['ops']) == 4)]
+        ok = bool(jobs) and all(is_one(st['rv']['ops'][3]) for (i, st) in jobs)
         ctx.check(ok, 'C13-R4', 'initial-depth', sp.b, good='initial jobs have depth 1',
                   bad='BFS spawn: initial jobs are not labelled with depth 1')
 
